@@ -1626,3 +1626,92 @@ Proof.
   intros H. inv_bind H. destruct x as [e|r]; inversion H; subst.
   split; cbn; [exact I|lia].
 Qed.
+
+(* ------------------------------------------------------------------ *)
+(* exactly once: advancing the Ready just produced always succeeds, stabilises
+   everything it carried, and the next Ready (nothing else happening) is empty
+   of entries / snapshot / hard state / soft state *)
+
+Theorem ready_then_commit n n1 rd :
+  rn_ready n = Ok (n1, rd) ->
+  exists n2, commit_ready n1 rd = Ok n2
+    /\ u_entries (unst (r_log (rn_raft n2))) = []
+    /\ u_snapshot (unst (r_log (rn_raft n2))) = None
+    /\ (rd_entries rd <> [] ->
+          u_offset (unst (r_log (rn_raft n2))) = e_index (List.last (rd_entries rd) entry_default) + 1)
+    /\ store (r_log (rn_raft n2)) = store (r_log (rn_raft n))
+    /\ committed (r_log (rn_raft n2)) = committed (r_log (rn_raft n))
+    /\ persisted (r_log (rn_raft n2)) = persisted (r_log (rn_raft n))
+    /\ applied (r_log (rn_raft n2)) = applied (r_log (rn_raft n))
+    /\ rn_prev_hs n2 = Raft.hard_state_of (rn_raft n2)
+    /\ rn_prev_ss n2 = soft_state_of (rn_raft n2)
+    /\ r_read_states (rn_raft n2) = [] /\ r_msgs (rn_raft n2) = []
+    /\ rn_commit_since_index n2 = rn_commit_since_index n1
+    /\ rn_records n2 = rn_records n1.
+Proof.
+  intros H.
+  destruct (ready_entries_are_unstable _ _ _ H)
+    as (R1 & _ & R2 & _ & R3 & R3' & R4 & R4' & _ & (recs & _ & _ & Hr) & Hph & Hps & Hlog & Hrs & Hms).
+  destruct (rn_ready_light _ _ _ H) as (oe & k & _ & _ & _ & _ & _ & _ & Hraft).
+  set (rr := mkRR (rn_max_number n + 1) (rec_last_of (u_entries (unst (r_log (rn_raft n)))))
+               (option_map (fun s => (s_index s, s_term s)) (u_snapshot (unst (r_log (rn_raft n)))))
+               (hs_changed n && tv_changed n)) in *.
+  assert (Hlast : List.last (rn_records n1) rr_default = rr) by (rewrite Hr; apply last_last).
+  assert (Hne : rn_records n1 <> []) by (rewrite Hr; destruct recs; discriminate).
+  assert (Hok : stable_ok (unst (r_log (rn_raft n1))) rr).
+  { rewrite Hlog. subst rr. split; cbn [rr_snapshot rr_last_entry].
+    - intros i t Hs. destruct (u_snapshot (unst (r_log (rn_raft n)))) as [s|]; [|discriminate].
+      inversion Hs; subst. eauto.
+    - intros i t He. unfold rec_last_of in He.
+      destruct (u_entries (unst (r_log (rn_raft n)))) as [|e0 es] eqn:Ee; [discriminate|].
+      inversion He; subst. split.
+      + destruct (u_snapshot (unst (r_log (rn_raft n)))); [discriminate|reflexivity].
+      + split; [discriminate|]. split; reflexivity. }
+  destruct (proj2 (commit_ready_ok_iff n1 rd)) as [n2 H2].
+  { rewrite Hlast. split; [exact Hne|]. split; [rewrite R2; reflexivity|exact Hok]. }
+  exists n2. split; [exact H2|].
+  destruct (commit_ready_stabilises _ _ _ H2) as (_ & _ & _ & E).
+  rewrite Hlast in E. rewrite Hlog in E.
+  destruct (commit_prev_frame n1 rd) as (F1 & F2 & F3 & F4 & F5 & F6).
+  subst n2. cbn. unfold stabilised. subst rr. cbn [rr_snapshot rr_last_entry].
+  rewrite R1.
+  assert (Hhs : match rd_hs rd with Some hs => hs | None => rn_prev_hs n1 end
+                = Raft.hard_state_of (rn_raft n)).
+  { destruct (rd_hs rd) as [hs|].
+    - destruct (proj1 (R3 hs) eq_refl) as [_ ->]. reflexivity.
+    - rewrite Hph. symmetry. apply R3'. reflexivity. }
+  assert (Hss : match rd_ss rd with Some ss => ss | None => rn_prev_ss n1 end
+                = soft_state_of (rn_raft n)).
+  { destruct (rd_ss rd) as [ss|].
+    - destruct (proj1 (R4 ss) eq_refl) as [_ ->]. reflexivity.
+    - rewrite Hps. symmetry. apply R4'. reflexivity. }
+  rewrite F4, F2, F5, F6, Hhs, Hss. rewrite Hraft.
+  unfold rec_last_of.
+  destruct (u_entries (unst (r_log (rn_raft n)))) as [|e0 es] eqn:Ee.
+  - destruct (u_snapshot (unst (r_log (rn_raft n)))) as [s|] eqn:Es; cbn;
+      rewrite ?Ee, ?Es; repeat split; try reflexivity; try congruence.
+  - cbn. repeat split; try reflexivity.
+Qed.
+
+Theorem ready_exactly_once n n1 rd n2 n3 rd' :
+  rn_ready n = Ok (n1, rd) -> commit_ready n1 rd = Ok n2 -> rn_ready n2 = Ok (n3, rd') ->
+  rd_entries rd' = [] /\ rd_hs rd' = None /\ rd_ss rd' = None /\ rd_read_states rd' = []
+  /\ rd_snapshot rd' = snap_default /\ rd_must_sync rd' = false
+  /\ lr_messages (rd_light rd') = [].
+Proof.
+  intros H1 H2 H3.
+  destruct (ready_then_commit _ _ _ H1) as (n2' & H2' & A1 & A2 & _ & _ & _ & _ & _ & A3 & A4 & A5 & A6 & _).
+  rewrite H2 in H2'. inversion H2'; subst n2'; clear H2'.
+  destruct (ready_entries_are_unstable _ _ _ H3)
+    as (R1 & R1' & _ & _ & _ & R3' & _ & R4' & R5 & _).
+  destruct (rn_ready_light _ _ _ H3) as (oe & k & _ & _ & Hl & _).
+  assert (Hms : rd_must_sync rd' = false).
+  { destruct (rd_must_sync rd') eqn:E; [|reflexivity].
+    apply (must_sync_spec _ _ _ H3) in E. rewrite R1, A1, A2 in E.
+    rewrite A3 in E. cbn in E.
+    destruct E as [E|[[s E]|[E|E]]]; congruence. }
+  rewrite R1, R1', R5, A1, A2, A5, Hl. cbn [lr_messages].
+  repeat split; try reflexivity; try assumption.
+  - apply R3'. symmetry. exact A3.
+  - apply R4'. symmetry. exact A4.
+Qed.
